@@ -364,7 +364,24 @@ func simulate(c *vk.Ctx, sc mpSimCase) (finalSegs int) {
 
 func simOpts(k int) mpOpts {
 	o := defaultMpOpts()
-	switch k % 4 {
+	switch k % 7 {
+	case 4: // fractional growth factors (the staircase of tier sizes is not integral)
+		o.TierGrowth = 1.5
+		o.MaxSegmentsPerTier = 3
+		o.SegmentsPerMergeTask = 4
+		o.FloorSegmentSize = 8
+		o.MaxSegmentSize = 200000
+	case 5:
+		o.TierGrowth = 2.5
+		o.MaxSegmentsPerTier = 4
+		o.SegmentsPerMergeTask = 5
+		o.FloorSegmentSize = 50
+	case 6:
+		o.TierGrowth = 3.7
+		o.MaxSegmentsPerTier = 2
+		o.SegmentsPerMergeTask = 3
+		o.FloorSegmentSize = 3
+		o.MaxSegmentSize = 50000
 	case 1:
 		o.MaxSegmentSize = 5000
 		o.FloorSegmentSize = 20
@@ -437,7 +454,7 @@ func runC19(c *vk.Ctx) {
 			}
 			n := simulate(c, sc)
 			c.Eval(1)
-			c.Distinct(fmt.Sprintf("sim:%d:%d", h%4, sc.Arrivals))
+			c.Distinct(fmt.Sprintf("sim:%d:%d", h%7, sc.Arrivals))
 			resCh <- res{sc.Arrivals, n}
 			if h < 3 {
 				c.Sample(map[string]interface{}{"simulation": sc, "final_segments": n})
